@@ -63,8 +63,8 @@ UNIVERSE = {
     + _calls("max", [[0], [1], [2], [-1], [-2 ** 70], [False], [0.5], ["0"], [None], [NIL]]),
     "float": _calls("__call__", [[0.5], [1.0], [-0.0], [float("inf")], [float("nan")], [1], [True],
                                  ["1.0"], [None], [E]])
-    + _calls("min", [[0.5], [1.0], [0.0], [float("inf")], [float("nan")], [1], [None], ["x"]])
-    + _calls("max", [[0.5], [1.0], [0.0], [float("-inf")], [float("nan")], [0], [None], [NIL]])
+    + _calls("min", [[0.5], [1.0], [0.0], [0.54], [float("inf")], [float("nan")], [1], [None], ["x"]])
+    + _calls("max", [[0.5], [1.0], [0.0], [0.46], [float("-inf")], [float("nan")], [0], [None], [NIL]])
     + _calls("precision", [[1], [2], [15], [0], [16], [-1], [True], [1.0], ["2"], [None], [2 ** 63]]),
     "str": _calls("__call__", [["ab"], [""], ["a"], ["abc"], [1], [b"ab"], [None], [E], [["a"]]])
     + _calls("len", LEN1 + LEN2)
@@ -103,6 +103,10 @@ def exhaustive(tier):
             yield {"type": typ, "calls": [c]}
         for c1, c2 in itertools.product(calls, calls):
             yield {"type": typ, "calls": [c1, c2]}
+        if typ in ("int", "float", "bool"):
+            # value x precision x bound interplay needs three calls: small universes are enumerated too
+            for chain in itertools.product(calls, calls, calls):
+                yield {"type": typ, "calls": list(chain)}
 
 
 def strategy(tier):
